@@ -326,40 +326,51 @@ def at_start_is_sticky(chk, prog, tr):
         if a['k'] not in ('copy', 'move'):
             continue
         el = a['pl']['l']
+        # every local the at-start value is computed from (copies, merges, closure captures)
+        lineage, work = set(), [el]
+        while work:
+            x = work.pop()
+            if x in lineage:
+                continue
+            lineage.add(x)
+            for df in d.defs.get(x, []):
+                ops = []
+                if df['kind'] in ('assign', 'partial'):
+                    rv = df['rv']
+                    ops += [rv.get(k) for k in ('op', 'a', 'b') if isinstance(rv.get(k), dict)]
+                    ops += rv.get('ops') or []
+                    if 'pl' in rv:
+                        ops.append({'k': 'copy', 'pl': rv['pl']})
+                elif df['kind'] in ('call', 'partial_call'):
+                    ops += df['term']['args']
+                for o in ops:
+                    if o and o.get('k') in ('copy', 'move'):
+                        work.append(o['pl']['l'])
         for l, vals in flags:
-            # (1) cleared under the negative outcome of the at-start value
+            # (2) the at-start value reads the flag: directly, or through a closure that captures it
+            reads = l in lineage
+            # (1) cleared under the (negative) outcome of the at-start value: a test of one of the locals it is made of
             cleared_under = False
             for fb in vals[False]:
                 for b in g.dominators().get(fb, ()):
                     tt = f.blocks[b]['term']
-                    if tt and tt['k'] == 'switch' and tt['d'].get('k') in ('copy', 'move'):
-                        src = tr.prov(f, tt['d'])
-                        if tr.prov(f, a) & src - {'const:true', 'const:false'} or tt['d']['pl'].get('l') == el:
-                            cleared_under = True
-            # (2) the at-start value reads the flag: directly, or through a closure that captures it
-            reads = False
-            work, seen = [el], set()
-            while work:
-                x = work.pop()
-                if x in seen:
-                    continue
-                seen.add(x)
-                if x == l:
-                    reads = True
-                    break
-                for df in d.defs.get(x, []):
-                    ops = []
-                    if df['kind'] in ('assign', 'partial'):
-                        rv = df['rv']
-                        ops += [rv.get(k) for k in ('op', 'a', 'b') if isinstance(rv.get(k), dict)]
-                        ops += rv.get('ops') or []
-                        if 'pl' in rv:
-                            ops.append({'k': 'copy', 'pl': rv['pl']})
-                    elif df['kind'] in ('call', 'partial_call'):
-                        ops += df['term']['args']
-                    for o in ops:
-                        if o and o.get('k') in ('copy', 'move'):
-                            work.append(o['pl']['l'])
+                    if not (tt and tt['k'] == 'switch' and tt['d'].get('k') in ('copy', 'move')):
+                        continue
+                    # the tested local is one the value is made of, or is made of it (`!entering_at_start`)
+                    back, w2 = set(), [tt['d']['pl'].get('l')]
+                    while w2:
+                        y = w2.pop()
+                        if y in back or len(back) > 40:
+                            continue
+                        back.add(y)
+                        for df in d.defs.get(y, []):
+                            if df['kind'] in ('assign', 'partial'):
+                                rv = df['rv']
+                                for o in [rv.get(k) for k in ('op', 'a', 'b') if isinstance(rv.get(k), dict)]:
+                                    if o.get('k') in ('copy', 'move'):
+                                        w2.append(o['pl']['l'])
+                    if back & (lineage - {l}):
+                        cleared_under = True
             if cleared_under and reads:
                 ok = True
             elif not reads:
